@@ -413,7 +413,9 @@ def hTb : List String → String → Res
     let ops ← (splitNE ops ",").mapM pTOp
     let outs := runTb thr ops (newTailBitmap o)
     let implOuts := splitNE impl ","
-    some (String.intercalate "," outs, vb (tbSpec o ops implOuts {} o))
+    -- the property starts from NewTailBitmap(o) with o a multiple of 64: for any other offset the specification says
+    -- nothing (verdict `na`), so that a shrunk replay can never leave the domain
+    some (String.intercalate "," outs, if o % 64 == 0 then vb (tbSpec o ops implOuts {} o) else "na")
   | _, _ => none
 
 end Low.Driver
